@@ -141,17 +141,84 @@ fn keyed_case<P: G>(cfg: Cfg, tier: Tier) -> Box<dyn Case> {
     })
 }
 
+/// Small batches: RecoverOnly returns the same masks as RecoverAndVerify, whatever precedes a seeded member
+fn batch_consistency_case<P: G>(d: usize) -> Box<dyn Case> {
+    case(format!("{}/d={}/batch-consistency", P::NAME, d), move |_v| {
+        fg::clear_intern();
+        let mut res = CaseResult::new("explored");
+        let kinds = ["seeded", "unseeded", "aggregated", "seeded-capacity2"];
+        let mk = |kind: &str, pos: usize| {
+            let cfg = match kind {
+                "aggregated" => Cfg::new(4, 2, 2, d),
+                "seeded-capacity2" => Cfg::new(4, 1, 2, d),
+                _ => Cfg::new(4, 1, 1, d),
+            };
+            let mut wit = Wit::default_for(&cfg);
+            for k in 0..d {
+                wit.blindings[0][k] = blinding(800 + pos, k);
+            }
+            if kind.starts_with("seeded") {
+                wit.seed = Some(seed_scalar(60 + pos as u64));
+            }
+            let built = build_cached::<P>(&cfg, &wit).unwrap();
+            let ctx = contexts()[pos % 6];
+            let proof = lib_prove(&built, &ctx, &mut HRng::chacha(70 + pos as u64)).unwrap();
+            (built.statement.clone(), proof, ctx)
+        };
+        for a in 0..kinds.len() {
+            for b in 0..kinds.len() {
+                for c in [None, Some(0usize)] {
+                    res.transitions += 1;
+                    let mut seq = vec![a, b];
+                    if let Some(x) = c {
+                        seq.push(x);
+                    }
+                    let members: Vec<_> = seq.iter().enumerate().map(|(pos, k)| mk(kinds[*k], pos)).collect();
+                    let sts: Vec<_> = members.iter().map(|m| m.0.clone()).collect();
+                    let proofs: Vec<_> = members.iter().map(|m| P::proof_clone(&m.1)).collect();
+                    let run = |mode| {
+                        let mut ts: Vec<merlin::Transcript> = members.iter().map(|m| m.2.transcript()).collect();
+                        verify_observed(&sts, &proofs, &mut ts, mode)
+                    };
+                    let rv = run(VerifyAction::RecoverAndVerify);
+                    let ro = run(VerifyAction::RecoverOnly);
+                    let vo = run(VerifyAction::VerifyOnly);
+                    res.executions += 3;
+                    res.validated += 1;
+                    let name: Vec<&str> = seq.iter().map(|k| kinds[*k]).collect();
+                    *res.outcome_counter(&format!("batch-verdict:{}", vo.class())) += 1;
+                    match (&rv.result, &ro.result, &vo.result) {
+                        (Some(Ok(x)), Some(Ok(y)), Some(Ok(_))) => {
+                            if x != y {
+                                let bad: Vec<usize> = (0..x.len()).filter(|i| x.get(*i) != y.get(*i)).collect();
+                                res.violate(name.join(","), format!("RecoverOnly masks differ from RecoverAndVerify masks at positions {:?}", bad));
+                            }
+                        },
+                        _ => res.violate(name.join(","), format!("all-valid batch: VerifyOnly {}, RecoverAndVerify {}, RecoverOnly {}", vo.describe(), rv.describe(), ro.describe())),
+                    }
+                }
+            }
+        }
+        res
+    })
+}
+
 pub fn run(rep: &mut Report) {
     rep.rule = "aggregation-1 configurations of the lattice x proofs {valid, one invalid mutant per component class (thorough: full menu)} x \
                 statement seed in {none, prover's, +1, single-byte flips (bytes 0,15,30,31; all 32 at n=8 / thorough), unrelated} x 3 modes; \
                 oracle: verdict(VerifyOnly) == verdict(RecoverAndVerify), identical for every seed; wrong seed => Ok and every mask \
-                component differs from the truth; RecoverOnly Ok on structurally valid proofs and equal to RecoverAndVerify's masks"
+                component differs from the truth; RecoverOnly Ok on structurally valid proofs and equal to RecoverAndVerify's masks; every batch of 2-3 members over \
+                {seeded, unseeded, aggregated, seeded with spare capacity}: RecoverOnly masks == RecoverAndVerify masks"
         .into();
     let tier = rep.tier;
     let mut cases: Vec<Box<dyn Case>> = Vec::new();
     for cfg in lattice(tier.thorough()).into_iter().filter(|c| c.m == 1 && c.n > 1) {
         cases.push(keyed_case::<F>(cfg, tier));
         cases.push(keyed_case::<RistrettoPoint>(cfg, tier));
+    }
+    for d in [1usize, 2] {
+        cases.push(batch_consistency_case::<F>(d));
+        cases.push(batch_consistency_case::<RistrettoPoint>(d));
     }
     rep.explore("C10", cases);
     rep.expect_sub_outcome("verdict:Ok");
